@@ -258,13 +258,10 @@ def invgamma_prior(a, scale, loc=0.0, step=1e-2) -> Callable:
             f"; got {type(a)} and {type(loc)} respectively"
         )
         raise TypeError(te)
-    if loc == 0.0:
-        # Pull out `scale` to interpolate less
-        s2i = lambda x: invgamma.ppf(norm._cdf(x), a=a)
-    elif jnp.isscalar(scale):
-        s2i = lambda x: invgamma.ppf(norm._cdf(x), a=a, loc=loc, scale=scale)
-    else:
-        raise TypeError("`scale` may only be array-like for `loc == 0.`")
+    # Interpolate the standardized quantile (`loc=0`, `scale=1`) only: it is
+    # positive, so the logarithmic table is always defined, and `scale` and
+    # `loc` can be applied afterwards (also for negative `loc`).
+    s2i = lambda x: invgamma.ppf(norm._cdf(x), a=a)
 
     xmin, xmax = -8.2, 8.2  # (1. - norm.cdf(8.2)) * 2 < 1e-15
     standard_to_invgamma_interp = interpolator(
@@ -273,10 +270,8 @@ def invgamma_prior(a, scale, loc=0.0, step=1e-2) -> Callable:
 
     def standard_to_invgamma(x):
         # Allow for array-like `scale` without separate interpolations and only
-        # interpolate for shape `a` and `loc`
-        if loc == 0.0:
-            return standard_to_invgamma_interp(x) * scale
-        return standard_to_invgamma_interp(x)
+        # interpolate for shape `a`
+        return standard_to_invgamma_interp(x) * scale + loc
 
     return standard_to_invgamma
 
@@ -287,7 +282,7 @@ def invgamma_invprior(a, scale, loc=0.0, step=1e-2) -> Callable:
 
     xmin, xmax = -8.2, 8.2  # (1. - norm.cdf(8.2)) * 2 < 1e-15
     _, invgamma_to_standard = interpolator(
-        lambda x: invgamma.ppf(norm._cdf(x), a=a, loc=loc, scale=scale),
+        lambda x: invgamma.ppf(norm._cdf(x), a=a),
         xmin,
         xmax,
         step=step,
@@ -295,4 +290,4 @@ def invgamma_invprior(a, scale, loc=0.0, step=1e-2) -> Callable:
         inv_table_func=jnp.exp,
         return_inverse=True,
     )
-    return invgamma_to_standard
+    return lambda y: invgamma_to_standard((y - loc) / scale)
